@@ -193,3 +193,42 @@ func TestVerifExpiry(t *testing.T) {
 		vdrainWrites(store)
 	}
 }
+
+// C03 with the real ticker goroutine: while some caller holds the policy lock for a long (virtual)
+// time - a slow listener, a long SaveCache - the cached clock must keep being refreshed, or a read
+// would trust it for an entry whose deadline has passed in the meantime.
+func TestVerifTickerStall(t *testing.T) {
+	tr := vopen(t, "tickerstall")
+	defer tr.close()
+	tr.init(0)
+	trials := vscale(1, 3)
+	for c := 0; c < trials; c++ {
+		t0 := int64(1_700_000_000_000_000_000) + int64(c)*1_000_000_000_000
+		vsetNow(t0)
+		s := NewStore(&StoreOptions[int, int]{MaxSize: 100})
+		deadline := time.Now().Add(3 * time.Second)
+		for time.Now().Before(deadline) {
+			s.policyMu.Lock()
+			ready := s.maintenanceTicker != nil
+			s.policyMu.Unlock()
+			if ready {
+				break
+			}
+			time.Sleep(time.Millisecond)
+		}
+		s.Set(1, 11, 1, 31*time.Second)
+		s.Wait()
+		s.policyMu.Lock()
+		time.Sleep(1200 * time.Millisecond)
+		vsetNow(t0 + 40_000_000_000)
+		time.Sleep(1300 * time.Millisecond)
+		v, ok := s.Get(1)
+		s.policyMu.Unlock()
+		if ok {
+			tr.viol(fmt.Sprintf("C03: Get(1) returned %d nine seconds (virtual) past its deadline while another goroutine held the policy lock: the cached clock was not refreshed", v))
+		}
+		s.Close()
+		tr.op("trial", ss("92", i64(int64(c))), ss(b2s(ok)))
+	}
+	clockOff()
+}
